@@ -55,11 +55,11 @@ def step_grid():
 def gen(rng, tier):
     cases = [("sockops", "g%d" % i, ops) for i, ops in enumerate(sockgen.grid_cases(False))]
     cases += [("todos", "st%d" % i, ops) for i, ops in enumerate(step_grid())]
-    n = 60 if tier == "quick" else 2000
+    n = 60 if tier == "quick" else 8000
     for k in range(n):
         ops = sockgen.c01_case(rng) if rng.random() < 0.7 else sockgen.udp_case(rng)
         cases.append(("sockops", "r%d" % k, ops))
-    for k in range(100 if tier == "quick" else 5000):
+    for k in range(100 if tier == "quick" else 30000):
         cases.append(("todos", "tr%d" % k, c06.rand_history(rng)))
     return cases
 
